@@ -251,6 +251,18 @@ def corruptions(vals, stamps):
             v = list(vals)
             v[i] = bad
             out.append(("df-col2-%s@%d" % (tag, i), pd.DataFrame({"a": list(vals), "b": v}, index=idx)))
+    # the same defects introduced into a COPY of a series that has already been validated / measured
+    base = pd.Series(list(vals), index=idx)
+    base.cagr()
+    base.max_drawdown()
+    for i in range(n):
+        for bad, tag in ((float("nan"), "nan"), (0.0, "zero"), (-1.0, "negative")):
+            c = base.copy()
+            c.iloc[i] = bad
+            out.append(("derived-%s@%d" % (tag, i), c))
+    if n >= 3:
+        out.append(("derived-reversed", base.iloc[::-1]))
+        out.append(("derived-reindexed-with-gap", base.reindex(idx.union(pd.DatetimeIndex([idx[0] + (idx[1] - idx[0]) / 2])))))
     out.append(("intindex", pd.Series(list(vals))))
     out.append(("strindex", pd.Series(list(vals), index=[chr(97 + i) for i in range(n)])))
     st = list(stamps)
